@@ -44,27 +44,82 @@ theorem wordsBytes_even : ∀ (p : Bytes), p.length % 2 = 0 → wordsBytes p = p
   | a :: b :: rest, h => by
     rw [wordsBytes, wordsBytes_even rest (by simp only [List.length_cons] at h; omega)]
 
-theorem splitParams_paramBlock (andx : Bool) (p rest : Bytes) (heven : p.length % 2 = 0)
-    (hwc : wordCountOf andx p ≤ 255) (handx : andx = true → p = []) :
-    splitParams (paramBlock andx p ++ rest) = .ok (wordCountOf andx p, andxBytes andx ++ p, rest) := by
+/-! ### the AndX block on both sides -/
+
+theorem andxBytesOf_congr (b : Bool) (e1 e2 : Env) (h : e1.get andxField = e2.get andxField) :
+    andxBytesOf b e1 = andxBytesOf b e2 := by
+  unfold andxBytesOf; rw [h]
+
+theorem andxBytesOf_length (b : Bool) (env : Env) : (andxBytesOf b env).length = (andxBytes b).length := by
+  unfold andxBytesOf andxBytes
+  cases b
+  · rfl
+  · simp only [if_true]
+    split <;> rfl
+
+/-- a well-formed AndX block goes out as four bytes that `AndX.Unmarshal` reads back to the same block -/
+theorem andxOk_decode (env : Env) (h : andxOk true env = true) :
+    ∃ a b c d, andxBytesOf true (prologueEnv true env) = [a, b, c, d] ∧
+      (prologueEnv true env).get andxField = some (andxVal a b c d) := by
+  unfold andxOk at h
+  simp only [Bool.not_true, Bool.false_or] at h
+  split at h
+  · rename_i c r o hget
+    simp only [Bool.and_eq_true, decide_eq_true_eq] at h
+    obtain ⟨⟨hc, hr⟩, ho⟩ := h
+    refine ⟨UInt8.ofNat c, UInt8.ofNat r, UInt8.ofNat (o / 256), UInt8.ofNat (o % 256), ?_, ?_⟩
+    · unfold andxBytesOf; rw [hget]; rfl
+    · rw [hget]
+      unfold andxVal
+      rw [toNat_ofNat_lt c hc, toNat_ofNat_lt r hr, toNat_ofNat_lt (o / 256) (by omega),
+        toNat_ofNat_lt (o % 256) (by omega)]
+      have : 256 * (o / 256) + o % 256 = o := by omega
+      rw [this]
+  · cases h
+
+/-- the prologue leaves a command that holds an AndX block (or is no AndX command) as it is -/
+theorem prologueEnv_id (b : Bool) (env : Env) (h : b = true → (env.get andxField).isSome = true) :
+    prologueEnv b env = env := by
+  unfold prologueEnv
+  cases b
+  · simp
+  · have := h rfl
+    cases hg : env.get andxField <;> simp [hg] at this ⊢
+
+theorem splitParams_paramBlock (andx : Bool) (ax p rest : Bytes) (heven : p.length % 2 = 0)
+    (hwc : wordCountOf andx p ≤ 255) (hax : ax.length = (andxBytes andx).length) :
+    splitParams (paramBlock andx ax p ++ rest) = .ok (wordCountOf andx p, ax ++ p, rest) := by
   cases andx with
   | true =>
-    rw [handx rfl]
-    simp [paramBlock, wordCountOf, andxWords, andxBytes, wordsBytes, splitParams]
+    obtain ⟨a, b, c, d, rfl⟩ : ∃ a b c d, ax = [a, b, c, d] := by
+      match ax, hax with
+      | [a, b, c, d], _ => exact ⟨a, b, c, d, rfl⟩
+    have hw : wordCountOf true p = 2 + p.length / 2 := by simp [wordCountOf, andxWords]; omega
+    rw [hw] at hwc ⊢
+    have hmod : (2 + p.length / 2) % 256 = 2 + p.length / 2 := Nat.mod_eq_of_lt (by omega)
+    have htn : (UInt8.ofNat (2 + p.length / 2)).toNat = 2 + p.length / 2 := toNat_ofNat_lt _ (by omega)
+    have hpos : 2 + p.length / 2 > 0 := by omega
+    simp only [paramBlock, hw, hmod, hpos, if_true, wordsBytes_even p heven, List.cons_append,
+      List.nil_append, splitParams, htn]
+    rw [if_neg (by simp; omega)]
+    have h2 : 2 * (2 + p.length / 2) = p.length + 4 := by omega
+    simp [h2, List.take_succ_cons, List.drop_succ_cons]
   | false =>
+    have hax0 : ax = [] := List.eq_nil_of_length_eq_zero (by simpa [andxBytes] using hax)
+    subst hax0
     have hw : wordCountOf false p = p.length / 2 := by simp [wordCountOf, andxWords]; omega
     rw [hw] at hwc ⊢
     have hmod : p.length / 2 % 256 = p.length / 2 := Nat.mod_eq_of_lt (by omega)
     by_cases hz : p.length / 2 > 0
     · have htn : (UInt8.ofNat (p.length / 2)).toNat = p.length / 2 := toNat_ofNat_lt _ (by omega)
-      simp only [paramBlock, hw, hmod, hz, if_true, andxBytes, Bool.false_eq_true, if_false, List.nil_append,
+      simp only [paramBlock, hw, hmod, hz, if_true, List.nil_append,
         wordsBytes_even p heven, List.cons_append, splitParams, htn]
       rw [if_neg (by simp; omega)]
       have h2 : 2 * (p.length / 2) = p.length := by omega
       simp [h2]
     · have hp : p = [] := List.eq_nil_of_length_eq_zero (by omega)
       subst hp
-      simp [paramBlock, wordCountOf, andxWords, andxBytes, splitParams]
+      simp [paramBlock, wordCountOf, andxWords, splitParams]
 
 theorem splitData_dataBlock (d : Bytes) (h : d.length ≤ 65535) : splitData (dataBlock d) = .ok (d, []) := by
   have hmod : d.length % 65536 = d.length := Nat.mod_eq_of_lt (by omega)
@@ -89,31 +144,31 @@ theorem mem_filter_blk (u : List Slot) (sl : Slot) (h : sl ∈ u) : sl ∈ u.fil
 
 /-! ### what `Mirror` and `consistent` give, unpacked -/
 
-structure MirrorFacts (c : Cmd) (m u : List Slot) : Prop where
+structure MirrorFacts (c : Cmd) (body : List UStmt) (m u : List Slot) : Prop where
+  hbody : bodyU c = some body
   lm : layoutM c.marshal = some m
-  lu : layoutU c.unmarshal = some u
+  lu : layoutU body = some u
   agP : agreeAll (m.filter (·.blk == .P)) (u.filter (·.blk == .P)) = true
   agD : agreeAll (m.filter (·.blk == .D)) (u.filter (·.blk == .D)) = true
   lastP : restOnlyLast (u.filter (·.blk == .P)) = true
   lastD : restOnlyLast (u.filter (·.blk == .D)) = true
-  andx : c.isAndX = true → m.filter (·.blk == .P) = []
   stable : stableM c.marshal = true
-  ok : okU (!(u.filter (·.blk == .P)).isEmpty) (!(u.filter (·.blk == .D)).isEmpty) {} [] c.unmarshal = true
+  noAndx : c.marshal.all (fun s => s.modifies != some andxField) = true
+  ok : okU (!(u.filter (·.blk == .P)).isEmpty) (!(u.filter (·.blk == .D)).isEmpty) {}
+    (if c.isAndX then [andxField] else []) body = true
   covered : ∀ f ∈ c.fields.map (·.1), f ∈ u.map Slot.field
 
-theorem mirror_facts {c : Cmd} (hm : Mirror c = true) : ∃ m u, MirrorFacts c m u := by
+theorem mirror_facts {c : Cmd} (hm : Mirror c = true) : ∃ body m u, MirrorFacts c body m u := by
   unfold Mirror at hm
   split at hm
-  · rename_i m u hlm hlu
-    simp only [mirrorSlots, Bool.and_eq_true, Bool.or_eq_true, Bool.not_eq_true', List.isEmpty_iff,
-      List.all_eq_true, List.contains_iff_mem] at hm
-    obtain ⟨⟨⟨⟨⟨⟨⟨h1, h2⟩, h3⟩, h4⟩, h5⟩, h6⟩, h7⟩, h8⟩ := hm
-    refine ⟨m, u, hlm, hlu, h1, h2, h3, h4, ?_, h6, h7, h8⟩
-    intro ha
-    rcases h5 with h | h
-    · rw [ha] at h; cases h
-    · exact h
   · cases hm
+  · rename_i body hbody
+    split at hm
+    · rename_i m u hlm hlu
+      simp only [mirrorSlots, Bool.and_eq_true, List.all_eq_true, List.contains_iff_mem] at hm
+      obtain ⟨⟨⟨⟨⟨⟨⟨h1, h2⟩, h3⟩, h4⟩, h6⟩, h6a⟩, h7⟩, h8⟩ := hm
+      exact ⟨body, m, u, hbody, hlm, hlu, h1, h2, h3, h4, h6, List.all_eq_true.mpr h6a, h7, h8⟩
+    · cases hm
 
 theorem agrees_field {a b : Slot} (h : a.agrees b = true) : a.field = b.field := by
   cases a <;> cases b <;> simp only [Slot.agrees, Bool.and_eq_true, beq_iff_eq, Bool.false_eq_true] at h
@@ -130,17 +185,24 @@ theorem agreeAll_fields : ∀ (ms us : List Slot), agreeAll ms us = true → ms.
     simp only [agreeAll, Bool.and_eq_true] at h
     rw [List.map_cons, List.map_cons, agrees_field h.1, agreeAll_fields ms us h.2]
 
+/-- the AndX bytes a command goes out with -/
+def axOf (c : Cmd) (env : Env) : Bytes := andxBytesOf c.isAndX (prologueEnv c.isAndX env)
+
 /-- everything the round trip establishes, for the two corollaries -/
 theorem mirror_roundtrip_full {C : Codecs} {T : String → Prop} (hC : LawfulCodecs C T) (c : Cmd)
     (hm : Mirror c = true) (hT : ∀ t ∈ c.subTypes, T t) (env0 env : Env) (hc : consistent C c env = true) :
-    ∃ (m u : List Slot) (sM : MState) (d : Env),
-      MirrorFacts c m u ∧ runM C c env = .ok sM ∧ sM.head = [] ∧
+    ∃ (body : List UStmt) (m u : List Slot) (sM : MState) (d : Env),
+      MirrorFacts c body m u ∧ runM C c env = .ok sM ∧ sM.head = [] ∧
       sM.P = layoutBytes C sM.env (m.filter (·.blk == .P)) ∧ sM.D = layoutBytes C sM.env (m.filter (·.blk == .D)) ∧
       (∀ sl ∈ m, SlotFit C T sM.env sl) ∧
-      decodeCmd C c env0 (paramBlock c.isAndX sM.P ++ dataBlock sM.D) = .ok d ∧
+      decodeCmd C c env0 (paramBlock c.isAndX (axOf c env) sM.P ++ dataBlock sM.D) = .ok d ∧
+      sM.env.get andxField = (prologueEnv c.isAndX env).get andxField ∧
+      (c.isAndX = true → d.get andxField = sM.env.get andxField ∧ (sM.env.get andxField).isSome = true) ∧
       ((∀ f ∈ u.map Slot.field, d.get f = sM.env.get f) ∨ c.fields = []) := by
-  obtain ⟨m, u, F⟩ := mirror_facts hm
+  obtain ⟨body, m, u, F⟩ := mirror_facts hm
   unfold consistent at hc
+  rw [Bool.and_eq_true] at hc
+  obtain ⟨haok, hc⟩ := hc
   split at hc
   case h_2 => cases hc
   rename_i sM hrun
@@ -148,8 +210,11 @@ theorem mirror_roundtrip_full {C : Codecs} {T : String → Prop} (hC : LawfulCod
   obtain ⟨⟨⟨⟨⟨⟨hints, hrel⟩, heven⟩, hwc⟩, hdl⟩, hne⟩, hhead⟩ := hc
   -- marshal side
   have hTm : ∀ b f t, MStmt.sub b f t ∈ c.marshal → T t := fun b f t h => hT t (mem_subTypes h)
-  obtain ⟨hP, hD, hH, hfitM⟩ := runMStmts_layout hC c.isAndX c.marshal m { env := env } sM F.lm F.stable hTm hrun hints
+  obtain ⟨hP, hD, hH, hfitM⟩ := runMStmts_layout hC c.isAndX c.marshal m { env := prologueEnv c.isAndX env } sM F.lm
+    F.stable hTm hrun hints
   simp only [List.nil_append] at hP hD
+  have hframe : sM.env.get andxField = (prologueEnv c.isAndX env).get andxField :=
+    runMStmts_frame C c.isAndX c.marshal m { env := prologueEnv c.isAndX env } sM F.lm hrun andxField F.noAndx
   obtain ⟨hbP, hfP, hnilP⟩ := agreeAll_bytes (C := C) (T := T) (env := sM.env) _ _ F.agP
   obtain ⟨hbD, hfD, _⟩ := agreeAll_bytes (C := C) (T := T) (env := sM.env) _ _ F.agD
   have hfitU : ∀ sl ∈ u, SlotFit C T sM.env sl := by
@@ -157,9 +222,8 @@ theorem mirror_roundtrip_full {C : Codecs} {T : String → Prop} (hC : LawfulCod
     cases hb : sl.blk
     · exact hfP (fun s hs => hfitM s (List.mem_filter.mp hs).1) sl (by have := mem_filter_blk u sl hsl; rwa [hb] at this)
     · exact hfD (fun s hs => hfitM s (List.mem_filter.mp hs).1) sl (by have := mem_filter_blk u sl hsl; rwa [hb] at this)
-  have handx : c.isAndX = true → sM.P = [] := by
-    intro ha; rw [hP, F.andx ha]; rfl
-  have hsp := splitParams_paramBlock c.isAndX sM.P (dataBlock sM.D) heven hwc handx
+  have hsp := splitParams_paramBlock c.isAndX (axOf c env) sM.P (dataBlock sM.D) heven hwc
+    (andxBytesOf_length c.isAndX _)
   have hsd := splitData_dataBlock sM.D hdl
   -- unmarshal side
   have hrestU : ∀ b, restOnlyLast (u.filter (·.blk == b)) = true := by
@@ -167,32 +231,60 @@ theorem mirror_roundtrip_full {C : Codecs} {T : String → Prop} (hC : LawfulCod
     · exact F.lastP
     · exact F.lastD
   let s0 : UState :=
-    { P := andxBytes c.isAndX ++ sM.P, D := sM.D,
-      Pext := List.replicate (streamCap (andxBytes c.isAndX ++ sM.P).length - (andxBytes c.isAndX ++ sM.P).length) 0,
+    { P := axOf c env ++ sM.P, D := sM.D,
+      Pext := List.replicate (streamCap (axOf c env ++ sM.P).length - (axOf c env ++ sM.P).length) 0,
       Dext := [], wordCount := wordCountOf c.isAndX sM.P, env := env0 }
-  have hinv : Inv C sM.env {} s0.P s0.D s0.offset u := by
+  -- the AndX stanza (if any) stores the AndX block and hands the command's own parameters to the rest of the program
+  have hgo : ∃ (s1 : UState), s1.P = sM.P ∧ s1.D = sM.D ∧ s1.offset = 0 ∧
+      runU.go C s0 c.unmarshal = runU.go C s1 body ∧ relationsHold C sM.env sM.P.length 0 body = true ∧
+      Agree (if c.isAndX then [andxField] else []) s1.env sM.env ∧
+      (c.isAndX = true → (sM.env.get andxField).isSome = true) := by
+    have hb := F.hbody
+    unfold bodyU at hb
+    cases ha : c.isAndX with
+    | false =>
+      rw [ha] at hb
+      simp only [Bool.false_eq_true, if_false, Option.some.injEq] at hb
+      subst hb
+      exact ⟨s0, by simp [s0, axOf, ha, andxBytesOf], rfl, rfl, rfl, hrel, fun f hf => by simp at hf,
+        fun h => by cases h⟩
+    | true =>
+      rw [ha] at hb haok hframe
+      simp only [if_true] at hb
+      obtain ⟨a, b, cc, dd, hax, hval⟩ := andxOk_decode env haok
+      have h0 : s0.P = a :: b :: cc :: dd :: sM.P := by simp [s0, axOf, ha, hax]
+      refine ⟨afterAndX s0 a b cc dd sM.P, rfl, rfl, rfl,
+        go_andx_prefix C a b cc dd sM.P c.unmarshal body s0 hb h0, ?_, ?_, fun _ => ?_⟩
+      · rw [← relationsHold_splitAndX C sM.env sM.P.length c.unmarshal body 0 hb]; exact hrel
+      · intro f hf
+        have : f = andxField := by simpa using hf
+        subst this
+        show (env0.set andxField (andxVal a b cc dd)).get andxField = _
+        rw [Env.get_set_self, hframe, hval]
+      · rw [hframe, hval]; rfl
+  obtain ⟨s1, h1P, h1D, h1o, hgo, hrelB, hag1, hseenA⟩ := hgo
+  have hinv : Inv C sM.env {} s1.P s1.D s1.offset u := by
+    rw [h1P, h1D, h1o]
     refine ⟨?_, ?_, fun _ => rfl⟩
     · intro b _
+      right
       cases b
-      · by_cases ha : c.isAndX = true
-        · left; exact hnilP (F.andx ha)
-        · right
-          have : c.isAndX = false := by simpa using ha
-          show andxBytes c.isAndX ++ sM.P = _
-          rw [this, hP, hbP]; rfl
-      · right
-        show sM.D = _
+      · show sM.P = _
+        rw [hP, hbP]
+      · show sM.D = _
         rw [hD, hbD]
     · intro b hb; cases hb
-  obtain ⟨d, hd, hagree⟩ := runU_go_layout hC sM.env _ _ c.unmarshal u {} [] s0 0 F.lu F.ok hrel hfitU hrestU hinv
-    (fun f hf => by cases hf)
-  have hdec : decodeCmd C c env0 (paramBlock c.isAndX sM.P ++ dataBlock sM.D) = .ok d := by
+  obtain ⟨d, hd, hseen, hagree⟩ := runU_go_layout hC sM.env sM.P.length _ _ body u {} _ s1 0 F.lu
+    F.ok hrelB hfitU hrestU hinv hag1
+  rw [h1P, h1D] at hagree
+  have hdec : decodeCmd C c env0 (paramBlock c.isAndX (axOf c env) sM.P ++ dataBlock sM.D) = .ok d := by
     unfold decodeCmd
     rw [hsp]
     simp only []
     rw [hsd]
-    exact hd
-  refine ⟨m, u, sM, d, F, hrun, hhead, hP, hD, hfitM, hdec, ?_⟩
+    exact hgo.trans hd
+  refine ⟨body, m, u, sM, d, F, hrun, hhead, hP, hD, hfitM, hdec, hframe,
+    fun ha => ⟨hseen andxField (by rw [ha]; simp), hseenA ha⟩, ?_⟩
   rcases hne with (hp | hdd) | hemp
   · left
     intro f hf
@@ -201,8 +293,7 @@ theorem mirror_roundtrip_full {C : Codecs} {T : String → Prop} (hC : LawfulCod
     · have : u.filter (·.blk == .P) ≠ [] := by
         intro e; apply hPne; rw [hP, hbP, e]; rfl
       simpa using this
-    · show andxBytes c.isAndX ++ sM.P ≠ []
-      intro e; exact hPne (List.append_eq_nil_iff.mp e).2
+    · exact hPne
   · left
     intro f hf
     have hDne : sM.D ≠ [] := by intro e; rw [e] at hdd; simp at hdd
@@ -217,28 +308,51 @@ theorem mirror_roundtrip_full {C : Codecs} {T : String → Prop} (hC : LawfulCod
 theorem mirror_roundtrip_core {C : Codecs} {T : String → Prop} (hC : LawfulCodecs C T) (c : Cmd)
     (hm : Mirror c = true) (hT : ∀ t ∈ c.subTypes, T t) (env0 env : Env) (hc : consistent C c env = true) :
     ∃ bs env' d, encodeCmd C c env = .ok bs ∧ envAfterMarshal C c env = .ok env' ∧
-      decodeCmd C c env0 bs = .ok d ∧ ∀ f ∈ c.fields.map (·.1), d.get f = env'.get f := by
-  obtain ⟨m, u, sM, d, F, hrun, hhead, _, _, _, hdec, hag⟩ := mirror_roundtrip_full hC c hm hT env0 env hc
-  refine ⟨paramBlock c.isAndX sM.P ++ dataBlock sM.D, sM.env, d, ?_, ?_, hdec, ?_⟩
-  · simp only [encodeCmd, hrun, hhead, List.nil_append]
+      decodeCmd C c env0 bs = .ok d ∧ ∀ f ∈ c.roundTripFields, d.get f = env'.get f := by
+  obtain ⟨_, m, u, sM, d, F, hrun, hhead, _, _, _, hdec, _, hax, hag⟩ := mirror_roundtrip_full hC c hm hT env0 env hc
+  refine ⟨paramBlock c.isAndX (axOf c env) sM.P ++ dataBlock sM.D, sM.env, d, ?_, ?_, hdec, ?_⟩
+  · simp only [encodeCmd, hrun, hhead, List.nil_append, axOf]
   · simp only [envAfterMarshal, hrun]
   · intro f hf
-    rcases hag with h | h
-    · exact h f (F.covered f hf)
-    · rw [h] at hf; cases hf
+    unfold Cmd.roundTripFields at hf
+    rcases List.mem_append.mp hf with hf | hf
+    · rcases hag with h | h
+      · exact h f (F.covered f hf)
+      · rw [h] at hf; cases hf
+    · cases ha : c.isAndX with
+      | false => rw [ha] at hf; cases hf
+      | true =>
+        rw [ha] at hf
+        have : f = andxField := List.mem_singleton.mp hf
+        subst this
+        exact (hax ha).1
 
 /-- **Re-encoding**: marshalling the decoded fields again yields the same bytes. -/
 theorem mirror_reencode_core {C : Codecs} {T F : String → Prop} (hC : LawfulCodecs C T) (hF : LawfulFmt C F) (c : Cmd)
     (hm : Mirror c = true) (hre : Reencodable c = true) (hT : ∀ t ∈ c.subTypes, T t) (hFt : ∀ t ∈ c.fmtTypes, F t)
     (env0 env : Env) (hc : consistent C c env = true) :
     ∃ bs d, encodeCmd C c env = .ok bs ∧ decodeCmd C c env0 bs = .ok d ∧ encodeCmd C c d = .ok bs := by
-  obtain ⟨m, u, sM, d, Fc, hrun, hhead, hP, hD, hfit, hdec, hag⟩ := mirror_roundtrip_full hC c hm hT env0 env hc
-  have henc : encodeCmd C c env = .ok (paramBlock c.isAndX sM.P ++ dataBlock sM.D) := by
-    simp only [encodeCmd, hrun, hhead, List.nil_append]
+  obtain ⟨_, m, u, sM, d, Fc, hrun, hhead, hP, hD, hfit, hdec, hframe, hax, hag⟩ :=
+    mirror_roundtrip_full hC c hm hT env0 env hc
+  have henc : encodeCmd C c env = .ok (paramBlock c.isAndX (axOf c env) sM.P ++ dataBlock sM.D) := by
+    simp only [encodeCmd, hrun, hhead, List.nil_append, axOf]
   refine ⟨_, d, henc, hdec, ?_⟩
+  -- the decoded command holds the sender's AndX block: its prologue changes nothing, and the same four bytes go out
+  have hpd : prologueEnv c.isAndX d = d :=
+    prologueEnv_id c.isAndX d (fun ha => by rw [(hax ha).1]; exact (hax ha).2)
+  have haxd : axOf c d = axOf c env := by
+    unfold axOf
+    rw [hpd]
+    cases ha : c.isAndX with
+    | false => rfl
+    | true =>
+      apply andxBytesOf_congr
+      rw [ha] at hframe
+      rw [(hax ha).1, hframe]
   unfold Reencodable at hre
-  rw [Fc.lm, Bool.and_eq_true] at hre
-  obtain ⟨hreM, hdecl⟩ := hre
+  rw [Fc.lm, Bool.and_eq_true, Bool.and_eq_true] at hre
+  obtain ⟨⟨hreM, hlenD⟩, hdecl⟩ := hre
+  simp only [List.all_eq_true, List.contains_iff_mem] at hlenD
   rcases hag with hag | hemp
   · -- the decoded fields agree with the sender's on every slot of the layout
     have hmem : ∀ sl ∈ m, sl.field ∈ u.map Slot.field := by
@@ -252,11 +366,14 @@ theorem mirror_reencode_core {C : Codecs} {T F : String → Prop} (hC : LawfulCo
       rw [h2] at h1
       obtain ⟨sl', hsl', he⟩ := List.mem_map.mp h1
       exact List.mem_map.mpr ⟨sl', (List.mem_filter.mp hsl').1, he⟩
-    obtain ⟨t', hr, _, hP', hD', hH'⟩ := runMStmts_again (T := T) hF c.isAndX c.marshal m { env := env } sM { env := d }
-      (u.map Slot.field) Fc.lm Fc.stable hreM hFt hrun hfit hmem hag
+    obtain ⟨t', hr, _, hP', hD', hH'⟩ := runMStmts_again (T := T) hF c.isAndX c.marshal m
+      { env := prologueEnv c.isAndX env } sM { env := d }
+      (u.map Slot.field) Fc.lm Fc.stable hreM hFt (fun g hg => Fc.covered g (hlenD g hg)) hrun hfit hmem hag
     simp only [List.nil_append] at hP' hD'
-    have hrun' : runM C c d = .ok t' := hr
-    simp only [encodeCmd, hrun', hH', hP', hD', ← hP, ← hD, List.nil_append]
+    have hrun' : runM C c d = .ok t' := by unfold runM; rw [hpd]; exact hr
+    have := haxd
+    unfold axOf at this
+    simp only [encodeCmd, hrun', hH', hP', hD', ← hP, ← hD, List.nil_append, this, axOf]
   · -- no declared field: the marshal program is empty
     have hm0 : m = [] := by
       rw [hemp] at hdecl
@@ -264,12 +381,20 @@ theorem mirror_reencode_core {C : Codecs} {T F : String → Prop} (hC : LawfulCo
       | nil => rfl
       | cons a _ => simp at hdecl
     subst hm0
-    have hnil := layoutM_nil_reencodable c.marshal Fc.lm hreM
-    have h1 : runM C c d = .ok { env := d } := by unfold runM; rw [hnil, runMStmts]
-    have h2 : runM C c env = .ok { env := env } := by unfold runM; rw [hnil, runMStmts]
+    have hlen0 : lenFieldsM c.marshal = [] := by
+      cases hl : lenFieldsM c.marshal with
+      | nil => rfl
+      | cons a _ =>
+        have := hlenD a (by rw [hl]; exact List.mem_cons_self ..)
+        rw [hemp] at this; cases this
+    have hnil := layoutM_nil_reencodable c.marshal Fc.lm hreM hlen0
+    have h1 : runM C c d = .ok { env := prologueEnv c.isAndX d } := by unfold runM; rw [hnil, runMStmts]
+    have h2 : runM C c env = .ok { env := prologueEnv c.isAndX env } := by unfold runM; rw [hnil, runMStmts]
     rw [h2] at hrun
     injection hrun with hrun
     subst hrun
-    simp only [encodeCmd, h1, List.nil_append]
+    have := haxd
+    unfold axOf at this
+    simp only [encodeCmd, h1, List.nil_append, this, axOf]
 
 end Manticore.SmbIR
